@@ -36,7 +36,7 @@ def gates(c, tier):
             if c.get(f"cell:{k}:{ic}", 0) == 0:
                 out.append(f"no {k} with id class {ic}")
     for k in ("search-with>=3-results-before-done", "duplicate-final-response", "request-type-delivered", "batched-delivery", "chunked-delivery",
-              "accepted-response", "rejected-response", "ids-checked", "response-with-paged-control", "long-lived-client", "many-outstanding-operations"):
+              "accepted-response", "rejected-response", "ids-checked", "response-with-paged-control", "long-lived-client", "many-outstanding-operations", "negative-id-aliasing-an-operation-in-progress"):
         if c.get(k, 0) == 0:
             out.append(f"never observed {k}")
     return out[:12]
@@ -118,7 +118,32 @@ def many_outstanding(seed, n_ops, order):
     return steps
 
 
+def negative_alias(seed, n_ops, alias_of):
+    """n_ops operations in progress (ids 1..n_ops); then a response whose messageID is alias_of - 2^8 / - 2^16 (the same
+    low octets as an id in progress, but a negative INTEGER): an id that is not in progress."""
+    import random
+
+    r = random.Random(seed)
+    steps = [("extended", "1.2.3", None, None) if r.random() < 0.5 else ("search", "dc=x", 2, 0, 0, 0, False, None, None, None) for _ in range(n_ops)]
+    wire_id = alias_of - (256 if alias_of < 256 else 65536)
+    kind = r.choice(["SearchResultDone", "ExtendedResponse", "SearchResultEntry"])
+    body = {"SearchResultDone": ((0, "", "", None),), "ExtendedResponse": ((0, "", "", None), None, None), "SearchResultEntry": ("cn=e", ())}[kind]
+    steps.append(("receive", rfc4511.encode((kind, wire_id, body, ()))))
+    return steps
+
+
 def run_shard(ctx: Ctx, acc: Acc):
+    for ci, alias_of in enumerate([128, 129, 200, 254, 255, 256, 300]):
+        if ci % ctx.nshards != ctx.shard:
+            continue
+        acc.case()
+        acc.count("negative-id-aliasing-an-operation-in-progress")
+        acc.nontrivial("alias", alias_of)
+        vio, drv = run_steps(negative_alias(ctx.seed + ci, 310, alias_of))
+        if not vio and drv.sess.state.name != "CLOSED":
+            vio = [("negative-id-accepted", f"a response with a negative messageID sharing the low octets of operation {alias_of} left the client {drv.sess.state.name}")]
+        for key, what in vio:
+            acc.violation(key, what + f" [response id = {alias_of} - 2^k]", {"alias": [ctx.seed + ci, 310, alias_of]})
     combos = [(n_ops, order) for n_ops in (2, 33, 64, 257, 1000) for order in ("oldest-first", "newest-first", "random", "evens-then-odds")]
     for ci, (n_ops, order) in enumerate(combos):
         if ci % ctx.nshards != ctx.shard:
@@ -262,6 +287,8 @@ def run_shard(ctx: Ctx, acc: Acc):
 def replay(w):
     if w.get("many"):
         return run_steps(many_outstanding(*w["many"]))[0]
+    if w.get("alias"):
+        return run_steps(negative_alias(*w["alias"]))[0]
     vio, drv = run_steps([to_tuple(a) for a in w["steps"]])
     ids = drv.ids_returned
     if ids and (any(b <= a_ for a_, b in zip(ids, ids[1:])) or ids[0] <= 0):
